@@ -14,6 +14,7 @@ TITLES = {
     '_meta_witness': 'reachability: a two-sample forward-filled read is reachable',
     '_write_new': 'write (list-of-dicts): accepted iff no index exists; one group per index in the file of that index with its own value; an existing index is refused with IOError and the stored sample is unchanged; all files closed on return',
     '_write_dict_forms': 'write (dict form, 3 samples): length-3 lists distributed per sample, scalars / other lengths repeated, strings never distributed (any length), nested dicts keep structure',
+    '_write_subdirs': 'write: a batch straddling a subdirectory boundary and a later write call with any other index on the same writer (back-fill): every sample is stored in the file of its index inside the subdirectory of that file, whatever was written before',
     '_write_witness': 'reachability: an accepted write is reachable',
 }
 
@@ -56,6 +57,33 @@ sys.exit(1 if bad else 0)
 '''
 
 
+REPLAY_SUBDIRS = '''
+from vlib import build
+import numpy as np, tempfile, os, shutil, sys, glob, warnings
+warnings.simplefilter('ignore')
+drf = build.load_pkg()
+import h5py
+kw = %r
+a, d1, d2, e2 = kw.get('a', 0), kw.get('d1', 1), kw.get('d2', 1), kw.get('e2', 399)
+top = tempfile.mkdtemp(); md = os.path.join(top, 'md'); os.makedirs(md)
+w = drf.DigitalMetadataWriter(md, 200, 100, 1, 1, 'md')
+samples = [a, a + d1, a + d1 + d2]
+w.write(samples, [{'v': int(x)} for x in samples]); w.write([e2], [{'v': int(e2)}])
+bad = 0
+import datetime
+for s in samples + [e2]:
+    f = (s // 100) * 100; sub = (f // 200) * 200
+    want = os.path.join(md, (datetime.datetime(1970, 1, 1) + datetime.timedelta(seconds=sub)).strftime('%%Y-%%m-%%dT%%H-%%M-%%S'), 'md@%%d.h5' %% f)
+    where = [p for p in glob.glob(os.path.join(md, '*', 'md@*.h5')) if str(s) in h5py.File(p, 'r')]
+    if where != [want]: print('sample', s, 'stored in', [p[len(md) + 1:] for p in where], 'expected', want[len(md) + 1:]); bad = 1
+r = drf.DigitalMetadataReader(md)
+got = sorted(int(k) for k in r.read(0, 400).keys())
+if got != sorted(samples + [e2]): print('read(0, 400) returns', got, 'written', sorted(samples + [e2])); bad = 1
+shutil.rmtree(top)
+sys.exit(1 if bad else 0)
+'''
+
+
 def main(tier):
     rep = common.Report('C12', tier, 'model_checking', functions=FUNCS)
     st = smt.Stats()
@@ -65,6 +93,6 @@ def main(tier):
     rep.outside_claim('value fidelity of scalars / strings / arrays through h5py and HDF5', 'more than 3 samples / 3 files per harness; indices >= 1000 in the harness channel')
     res = chx.run_module('meta', per_condition_timeout=180 if tier == 'quick' else 900)
     rd = lambda kw: REPLAY % (kw, 'read'); wr = lambda kw: REPLAY % (kw, 'write')
-    chx.report(rep, res, TITLES, replays={'_bounds': rd, '_read_range': rd, '_read_ffill': rd, '_read_latest': rd, '_read_column': rd, '_write_dict_forms': wr},
+    chx.report(rep, res, TITLES, replays={'_bounds': rd, '_read_range': rd, '_read_ffill': rd, '_read_latest': rd, '_read_column': rd, '_write_dict_forms': wr, '_write_subdirs': lambda kw: REPLAY_SUBDIRS % (kw,)},
                sigs={k: 'C12.' + k.strip('_') for k in TITLES})
     return rep.finish()
